@@ -101,3 +101,8 @@ CHECKS["C02"] = _resmgr("C02",
     "the cached CPU class assignment and the balloon snapshot: disjoint balloons inside the available set, exactly-one membership, container cpuset = balloon + shared idle (one thread per core when hidden), "
     "shared idle set exact for the sharing scope, min/max CPUs and instances, balloon size >= requests, CPU classes; non-trivial = states with at least two live containers",
     "4 configuration scenarios, depth 5", "6 configuration scenarios, depth 6")
+CHECKS["C04"] = _resmgr("C04",
+    "explicit-state BFS over create/stop/remove histories with memory-heavy containers on NUMA layouts (2/4 DRAM, DRAM+CPU-less PMEM, DRAM+HBM, movable-only node, asymmetric capacities), both policies; "
+    "oracle after every request: told/cached cpuset.mems = Allocator.AssignedZone, non-empty, nodes with memory; capacity of every node subset; widened zones delivered in the same reply; "
+    "non-trivial = states with at least two memory allocations",
+    "9 scenarios, depth 5", "10 scenarios, depth 6")
